@@ -138,7 +138,10 @@ private:
     }
 
     ~node() override {
-      for (unsigned i = pop_idx; i < push_idx; i += step_size) {
+      // push_idx can exceed max_idx when several producers hit a full node at once; indexes beyond
+      // max_idx do not refer to additional entries (they would wrap around to already consumed ones).
+      const unsigned end = std::min<unsigned>(push_idx.load(std::memory_order_relaxed), max_idx);
+      for (unsigned i = pop_idx; i < end; i += step_size) {
         traits::delete_value(entries[i % entries_per_node].value.load(std::memory_order_relaxed).get());
       }
     }
